@@ -129,6 +129,11 @@ def handleCore (args : List String) : Option String :=
     -- C08: the model is a pure function of (universe, world); `C08.schedule_independent` and
     -- `history_independent` say the caches cannot change that — the only admissible answer
     some "consistent\tconsistent\t-"
+  | ["p.conc"] =>
+    -- concurrent FIRST touch of fresh shared index objects: the shared objects are read-only after publication
+    -- (`AliasTable.shared_objects_never_written`, `shared_objects_have_no_lazy_fields`), so every interleaving
+    -- gives the fresh-state answer (`C08.schedule_independent`) — the only admissible answer
+    some "consistent\tconsistent\t-"
   | "r.one" :: con :: self :: narch :: rest =>
     -- ResolvePackage(con, no disqualifications): the accepted candidates as a sorted id list.
     -- Oracle: the verdict on a candidate depends on that candidate alone (`C02.filter_local`), so Go's
